@@ -5,11 +5,12 @@ SHA-1, FIPS 180-4 (§5.1.1 padding, §5.3.1 initial hash value, §4.1.1 function
 Used as the hash `H` (u = 20 output bytes, v = 64 block bytes) of the PKCS#12 key derivation
 (`Spec.PKCS12KDF`, `Model.PKCS12`) and of the PKCS#12 integrity HMAC (`Spec.HMAC.hmac hash`).
 
-Validation against the FIPS 180 examples (evaluated when this file is elaborated, see the `#guard`s at
-the end):
-  #eval toHex (hash "abc".toUTF8…)   = a9993e364706816aba3e25717850c26c9cd0d89d
-  #eval toHex (hash [])              = da39a3ee5e6b4b0d3255bfef95601890afd80709
-  448-bit message "abcdbcdecdef…nopq" = 84983e441c3bd26ebaae4aa1f95129e5e54670f1   (two blocks)
+Validation against the FIPS 180 examples, checked every time this file is elaborated (`#guard` at the end;
+the same values with `#eval toHex (hash …)`):
+  "abc"                               a9993e364706816aba3e25717850c26c9cd0d89d
+  ""                                  da39a3ee5e6b4b0d3255bfef95601890afd80709
+  "abcdbcdecdef…nopq" (two blocks)    84983e441c3bd26ebaae4aa1f95129e5e54670f1
+The driver additionally runs it against Go's crypto/sha1 on every `p12kdf sha1` / `p12mac` / `p12pbe` op.
 -/
 import Gmsm.Util.Bytes
 namespace Spec.SHA1
